@@ -12,6 +12,7 @@ from typing import Optional, SupportsFloat
 from pytest import approx
 from sympy import N, re, im
 from sympy.physics.units import Dimension
+from symplyphysics.core.convert import convert_to_si
 from symplyphysics.core.dimensions import assert_equivalent_dimension
 from symplyphysics.core.symbols.quantities import Quantity
 from symplyphysics.core.vectors.vectors import QuantityVector
@@ -63,16 +64,21 @@ def approx_equal_quantities(
 
     assert_equivalent_dimension(lhs, lhs.dimension.name, "approx_equal_quantities", rhs)
 
+    # NOTE: scale factors are not SI values (SymPy keeps masses in grams), whereas the absolute
+    # tolerance is given in SI units
+    lhs_value = convert_to_si(lhs)
+    rhs_value = convert_to_si(rhs)
+
     im_condition = approx_equal_numbers(
-        float(im(lhs.scale_factor)),
-        float(im(rhs.scale_factor)),
+        float(im(lhs_value)),
+        float(im(rhs_value)),
         relative_tolerance=relative_tolerance,
         absolute_tolerance=absolute_tolerance,
     )
 
     return im_condition and approx_equal_numbers(
-        float(re(lhs.scale_factor)),
-        float(re(rhs.scale_factor)),
+        float(re(lhs_value)),
+        float(re(rhs_value)),
         relative_tolerance=relative_tolerance,
         absolute_tolerance=absolute_tolerance,
     )
